@@ -119,7 +119,7 @@ def model_case(cfg, facts, items):
 
 def project(state):
     """model state (sx) -> the observable projection compared with the implementation"""
-    active, closed, lopen, busy, clients, fdmap, pollset, queue, workers, conns = state
+    active, closed, lopen, busy, clients, fdmap, pollset, queue, workers, conns, backlog = state
     d = {"active": bool(active), "closed": bool(closed), "lopen": bool(lopen), "clients": sorted(clients), "fdmap": sorted(fdmap),
          "pollset": sorted(pollset), "queue": sorted(queue), "held": sorted(w[0] for w in workers if w), "conn": {}}
     for c, stage, authd, gone, shut, cclosed, hooks, table, out, inlen in conns:
@@ -167,6 +167,33 @@ def wait_until(pred, bound):
         dt = min(dt * 1.5, 0.02)
 
 
+def norm_addr(a):
+    if isinstance(a, (bytes, bytearray)):
+        return bytes(a)
+    if isinstance(a, str):
+        return a.encode()
+    if isinstance(a, (tuple, list)):
+        return tuple(a[:2])
+    return a
+
+
+class WatchSet(set):
+    """Server.clients with a note of the peer of every socket added (same behaviour as the set it replaces)"""
+
+    def __init__(self, it=()):
+        set.__init__(self, it)
+        self.log = []
+
+    def add(self, sk):
+        import weakref
+        try:
+            name = norm_addr(sk.getpeername())
+        except OSError:
+            name = None
+        self.log.append((weakref.ref(sk), name))
+        set.add(self, sk)
+
+
 class Rec:
     """what the service hooks saw, per history"""
 
@@ -176,7 +203,9 @@ class Rec:
         self.hooks = {}
         self.conn_of = {}         # key -> weakref to the Connection
         self.svc_of = {}          # key -> id of the service instance
+        self.peer_of = {}         # key -> peer address of the connection
         self.thread_errors = 0
+        self.keep = []            # service instances stay alive: their ids (and their objects' ids) are compared across connections
 
     def on_connect(self, svc, conn):
         import weakref
@@ -187,6 +216,11 @@ class Rec:
             self.hooks[key] = 0
             self.conn_of[key] = weakref.ref(conn)
             self.svc_of[key] = id(svc)
+            self.keep.append(svc)
+            try:
+                self.peer_of[key] = norm_addr(conn._config["endpoints"][1])
+            except Exception:
+                self.peer_of[key] = None
 
     def on_disconnect(self, svc, conn):
         with self.lock:
@@ -354,6 +388,8 @@ class History:
         self.tmp = None
         self.stats = {"needed_gc": 0}
         self.tainted = False
+        self.addr_cid = {}
+        self.nsock = 0
 
     # ------------------------------------------------------------ set-up / tear-down
     def start(self):
@@ -393,6 +429,7 @@ class History:
         self.srv = cls(self.svc_arg, **kw)
         if cfg["transport"] == "tcp":
             self.addr = ("127.0.0.1", self.srv.port)
+        self.srv.clients = WatchSet(self.srv.clients)
         self.thread = self.srv._start_in_thread()
         self.ref_inst = {}      # instance tag -> {"cnt":, "made":}
 
@@ -420,19 +457,23 @@ class History:
         cl.gone = True
 
     # ------------------------------------------------------------ observation
-    def attribute(self, cid):
-        """server-side sockets / connections not seen before belong to the client that is connecting"""
-        for s in list(self.srv.clients):
-            if s not in self.sock_cid:
-                self.sock_cid[s] = cid
+    def attribute(self, cid=None):
+        """server-side sockets and connections are attributed to clients by peer address (recorded when the server adds the
+        socket to Server.clients / when on_connect runs)"""
+        for ref, name in list(self.srv.clients.log):
+            sk = ref()
+            if sk is not None and sk not in self.sock_cid:
+                self.sock_cid[sk] = self.addr_cid.get(name, -1)
         with self.rec.lock:
             keys = list(self.rec.connects)
+            peers = dict(self.rec.peer_of)
         for k in keys:
             if k not in self.key_cid:
-                self.key_cid[k] = cid
-                if cid in self.clients:
-                    self.clients[cid].accepted = True
-                    self.clients[cid].key = k
+                c = self.addr_cid.get(peers.get(k), -1)
+                self.key_cid[k] = c
+                if c in self.clients:
+                    self.clients[c].accepted = True
+                    self.clients[c].key = k
 
     def observe(self):
         import select
@@ -525,8 +566,7 @@ class History:
         last = [None, None]
 
         def ok():
-            if cid is not None:
-                self.attribute(cid)
+            self.attribute()
             o = self.observe()
             last[0] = o
             if exp is None:
@@ -564,6 +604,8 @@ class History:
 
     def check_residue(self, idx):
         """no sockets, descriptors or table entries for departed clients (evaluated when the server's threads have settled)"""
+        if self.tainted:
+            return
         kind = self.cfg["kind"]
         srv = self.srv
         departed = set(c.cid for c in self.clients.values() if c.gone)
@@ -626,6 +668,8 @@ class History:
 
     def check_close(self, idx, first):
         """close(): listener stopped, every connected client sees end-of-stream promptly, hooks ran once, nothing left; twice is harmless"""
+        if self.tainted:
+            return
         kind = self.cfg["kind"]
         srv = self.srv
         before = None
@@ -734,6 +778,8 @@ class History:
             if self.cfg["transport"] == "unix":
                 s = socket.socket(socket.AF_UNIX, socket.SOCK_STREAM)
                 s.settimeout(timeout)
+                self.nsock += 1
+                s.bind(b"\0verif-c17-%d-%d-%d" % (os.getpid(), id(self) & 0xffffff, self.nsock))    # abstract name: the server can tell who is who
                 s.connect(self.addr)
             else:
                 s = socket.create_connection(self.addr, timeout=timeout)
@@ -753,6 +799,7 @@ class History:
             self.settle(idx)
             return
         cl.sock, cl.connected = s, True
+        self.addr_cid[norm_addr(s.getsockname())] = cid
         if self.cfg["auth"] and auth != AUTH_STALL:
             try:
                 s.sendall(b"OKAY" if auth == AUTH_OK else b"NOPE")
